@@ -56,6 +56,38 @@ pub fn run(run: &mut Run) {
         let e = encode(&s, &plan);
         let l = e.last_frame_end();
         let bounds: Vec<usize> = e.chunks.iter().flat_map(|c| [c.start, c.end]).chain(e.frame_starts.iter().copied()).collect();
+        // every third file gets one more chunk of a rotating kind as the very last chunk of its last frame (what a
+        // reader may skip, ignore or treat leniently must still be there in full)
+        if i % 3 == 1 {
+            use crate::encode::*;
+            use crate::model::{ExtFile, LegacyPacket, LegacyPalette, Slice, UserData};
+            let extra: Vec<u8> = {
+                let lp = |kind: u16| LegacyPalette { kind, packets: vec![LegacyPacket { skip: 0, colors: (0..40u8).map(|k| [k, 63 - k, k / 2]).collect() }] };
+                let w = match (i / 3) % 10 {
+                    0 => legacy_chunk(&lp(0x0004)),
+                    1 => legacy_chunk(&lp(0x0011)),
+                    2 => user_data_chunk(&UserData { text: None, color: Some([1, 2, 3, 4]) }),
+                    3 => user_data_chunk(&UserData { text: Some("tail".into()), color: None }),
+                    4 => slice_chunk(&Slice { name: "tail".into(), flags: 0, keys: vec![], user_data: None }, &mut None),
+                    5 => W::new(0x2017),
+                    6 => { let mut w = W::new(0x2006); w.u32(Kind::Flags, "f", 0); w.reserved(32, &mut None); w }
+                    7 => { let mut w = W::new(0x2016); w.reserved(16, &mut None); w.string("n", "mask"); w }
+                    8 => color_profile_chunk(1, 0, 0),
+                    _ => ext_files_chunk(&[ExtFile { id: 7, name: "x.aseprite".into() }], &mut None),
+                };
+                finish_chunk(w, 0, &mut Rng(1)).bytes
+            };
+            let mut p = super::robust::to_pieces(&e);
+            p.frames.last_mut().unwrap().1.push(extra);
+            p.trailing.clear();
+            let b2 = super::robust::assemble(&p, true);
+            let sc = crate::scan::scan(&b2);
+            if sc.complete && AsepriteFile::read(&b2[..]).is_ok() {
+                let bounds2: Vec<usize> = sc.chunks.iter().flat_map(|c| [c.start, c.end]).chain(sc.frames.iter().map(|f| f.0)).collect();
+                files.push((format!("generated-{}+tail-chunk", i), b2, sc.last_frame_end, bounds2));
+                continue;
+            }
+        }
         files.push((format!("generated-{}", i), e.bytes, l, bounds));
     }
     for (name, b) in super::robust::golden_seeds() {
